@@ -45,6 +45,17 @@ static int replyConnection(void *ptr, const MPT_STRUCT(reply_data) *rd, const MP
 	}
 	return mpt_outdata_reply(&con->out, rd->len, rd->val, msg);
 }
+/* processed datagram is no part of the next outgoing message */
+static int datagramDone(MPT_STRUCT(connection) *con, int ret)
+{
+	MPT_STRUCT(buffer) *buf;
+	if ((buf = con->out.buf._buf)
+	    && !(con->out.state & MPT_OUTFLAG(Active))
+	    && buf->_used > con->out._smax) {
+		buf->_used = con->out._smax;
+	}
+	return ret;
+}
 int streamWrapper(void *ptr, const MPT_STRUCT(message) *msg)
 {
 	const struct _streamWrapper *wd = ptr;
@@ -207,7 +218,7 @@ extern int mpt_connection_dispatch(MPT_STRUCT(connection) *con, MPT_TYPE(event_h
 	if ((size_t) hlen > buf->_used) {
 		mpt_log(0, _func, MPT_LOG(Error), "%s (%u < %u)", MPT_tr("datagram too small"), hlen, (int) buf->_used);
 		mpt_outdata_reply(&con->out, slen, buf + 1, 0);
-		return MPT_ERROR(BadValue);
+		return datagramDone(con, MPT_ERROR(BadValue));
 	}
 	/* discard existing message */
 	if (!cmd) {
@@ -222,7 +233,7 @@ extern int mpt_connection_dispatch(MPT_STRUCT(connection) *con, MPT_TYPE(event_h
 		msg.base = data + hlen;
 		msg.used = buf->_used - hlen;
 		ev.msg = &msg;
-		return cmd(arg, &ev);
+		return datagramDone(con, cmd(arg, &ev));
 	}
 	/* got reply message */
 	if (data[0] & 0x80) {
@@ -241,7 +252,7 @@ extern int mpt_connection_dispatch(MPT_STRUCT(connection) *con, MPT_TYPE(event_h
 		if (!(ans = mpt_command_get(&con->_wait, id))) {
 			mpt_log(0, _func, MPT_LOG(Error), "%s: %s (" PRIx64 ")",
 			        MPT_tr("reply processing failed"), MPT_tr("message not registered"), id);
-			return MPT_ERROR(MissingBuffer);
+			return datagramDone(con, MPT_ERROR(MissingBuffer));
 		}
 		msg.base = data + hlen;
 		msg.used = buf->_used - hlen;
@@ -251,9 +262,9 @@ extern int mpt_connection_dispatch(MPT_STRUCT(connection) *con, MPT_TYPE(event_h
 		if ((len = reply(ans->arg, &msg)) < 0) {
 			mpt_log(0, _func, MPT_LOG(Error), "%s (%i)",
 			        MPT_tr("reply processing failed"), len);
-			return MPT_ERROR(MissingBuffer);
+			return datagramDone(con, MPT_ERROR(MissingBuffer));
 		}
-		return 0;
+		return datagramDone(con, 0);
 	}
 	else {
 		MPT_INTERFACE(metatype) *ctx = 0;
@@ -290,7 +301,7 @@ extern int mpt_connection_dispatch(MPT_STRUCT(connection) *con, MPT_TYPE(event_h
 		if ((ev.reply = rc) && mpt_reply_set(rd, ilen, data) < 0) {
 			mpt_log(0, _func, MPT_LOG(Error), "%s: %s",
 			        MPT_tr("dispatch failed"), MPT_tr("context not ready"));
-			return MPT_ERROR(BadOperation);
+			return datagramDone(con, MPT_ERROR(BadOperation));
 		}
 		msg.base = data + hlen;
 		msg.used = buf->_used - hlen;
@@ -307,6 +318,6 @@ extern int mpt_connection_dispatch(MPT_STRUCT(connection) *con, MPT_TYPE(event_h
 			msg.cont = 0;
 			rc->_vptr->reply(rc, &msg);
 		}
-		return ret;
+		return datagramDone(con, ret);
 	}
 }
